@@ -196,6 +196,20 @@ CHECKS["C05"] = dict(
     design_ref="DESIGN.md §5 C05",
     note="Trusted: Coq kernel + Reals axioms + functional extensionality; hand-written models tied by harness/h_fsolver.cpp correspondence; libm values (magnet cos/sin, lamination tanh/exp) recomputed in the harness with the solver's expressions.",
     technique="Coq proof over hand-written assembly models + bit-exact correspondence + independent Galerkin oracle")
+CHECKS["C08"] = dict(
+    category="proof",
+    text=("Partial by nature. Proved in Coq (collected from the other models): every array index computed by the modelled "
+          "routines stays in range under the loaders' well-formedness — sparse Put keeps stored column indices below n and rows "
+          "well-formed, any sequence of assembly statements with in-range indices does, the electrostatic element loop does, the "
+          "spiral search only visits valid element indices, the marker codec returns the encoded indices. Exhibited at run time "
+          "(not a theorem): generated problems of every family used by the other checks are meshed, solved and post-processed on "
+          "an ASan+UBSan build of the working tree, each twice with different MALLOC_PERTURB_ and byte-compared, plus Lua edit "
+          "scripts with copy/mirror/rotate/move and repeated copies; any sanitizer report or output difference is a violation."),
+    design_ref="DESIGN.md §5 C08",
+    note=("Trusted: Coq kernel (+Reals axioms); g++ -fsanitize=address,undefined; the bundled Triangle (C) is not instrumented "
+          "(its robust predicates read one element past an expansion without using it); uninitialised reads are only observable "
+          "through the determinism comparison."),
+    technique="Coq proof of index-range invariants of the modelled routines + sanitizer and determinism replays")
 PENDING = {}
 def main():
     props = [json.loads(l) for l in open(os.path.join(V, "properties.jsonl"))]
